@@ -33,6 +33,7 @@ ASSUMPTIONS = [
     "in every wire-fencing region)",
 ]
 MUST_REACH = ["invalid_rejected", "accepted_initialised", "fixed_point",
+              "second_initialisation_same_process",
               "invalid_restart_rejected"]
 JOB_TIMEOUT = 1500
 
@@ -108,7 +109,8 @@ def gen_case(rng):
                                                       "ee_defined",
                                                       "ee_undefined",
                                                       "ee_shared01",
-                                                      "ee_random"])
+                                                      "ee_random",
+                                                      "ee_undefined_2nd"])
     c["seed"] = rng.randrange(2 ** 31)
     c["ee_pattern"] = [rng.random() < 0.5 for _ in range(12)]
     c["lm1_class"] = rng.choice(["absent"] * 6 + ["below", "equal", "above",
@@ -152,7 +154,7 @@ def listed_invalid(c):
             # ensemble i+ has interface intf[i]
             if mv == "wf" and i < n and cap <= intf[i]:
                 out.add("cap-leaves-wf-no-room")
-    if c["engine_class"] in ("missing", "ee_undefined"):
+    if c["engine_class"] in ("missing", "ee_undefined", "ee_undefined_2nd"):
         out.add("undefined-engine")
     if c["quantis"] and c["engine_class"] in ("present", "missing") and \
             not c["quantis_engine0"]:
@@ -199,6 +201,12 @@ def build_config(c):
         cfg["simulation"]["ensemble_engines"] = [
             ["engine_b"] if c["ee_pattern"][i % 12] else ["engine"]
             for i in range(n)]
+    elif ec == "ee_undefined_2nd":
+        # an undefined engine listed behind a defined one, in an ensemble
+        # whose first engine other ensembles have listed before
+        cfg["simulation"]["ensemble_engines"] = [
+            ["engine"] if i != max(n, 1) - 1 else ["engine", "ghost_engine"]
+            for i in range(max(n, 1))]
     elif ec == "ee_undefined":
         cfg["simulation"]["ensemble_engines"] = [
             ["engine"] if i != n - 1 else ["ghost_engine"]
@@ -325,6 +333,33 @@ def _cfg_job(job, scratch):
                         k += 1
                     ev("accepted_initialised")
                     ev("first_picks", k)
+                    nn = len(c["interfaces"])
+                    if nn >= 3 and rng.random() < 0.5:
+                        # a second initialisation in the SAME process (no
+                        # reset of the module state in between), as a test
+                        # harness or a notebook does: another valid worker
+                        # count for the same sections
+                        R.close_log_handlers()
+                        c2 = dict(c, workers=rng.choice(
+                            [w for w in range(1, nn) if w != c["workers"]]))
+                        with open("infretis.toml", "wb") as f:
+                            tomli_w.dump(build_config(c2), f)
+                        shutil.rmtree("load", ignore_errors=True)
+                        write_paths(c2, cdir)
+                        config2 = setup_config("infretis.toml")
+                        md2, st2 = setup_internal(config2)
+                        k2 = 0
+                        while st2.initiate():
+                            st2.prep_md_items(copy.deepcopy(md2))
+                            k2 += 1
+                        reach("second_initialisation_same_process")
+                        ev("second_initialisations")
+                        if k2 != min(c2["workers"], 20):
+                            res["violations"].append({
+                                "mech": "second-initialisation-wrong-picks",
+                                "what": f"{k2} first picks for "
+                                        f"{c2['workers']} workers",
+                                "case": brief})
                 except BaseException as e:
                     import traceback
                     res["violations"].append({
